@@ -181,6 +181,10 @@ def register(E):
     E.records['SchedOptions'] = {'processes': 'int', 'verbose': 'int', 'subunit': 'bool', 'subunit_v2': 'bool', 'output': 'Output'}
     for s_ in ('Thread', 'SubResult', 'Queue', 'Suite'):
         E.truthy_sorts[s_] = 'always'
+    cnt_s = z3.Function('suite_countTestCases', usort('Suite'), I)
+    s0 = z3.Const('s0', usort('Suite'))
+    E.axioms.append(z3.ForAll([s0], cnt_s(s0) >= 0))
+    E.objmethods[('Suite', 'countTestCases')] = lambda eng, st, recv, node, args, kws, k: k(st, VInt(cnt_s(recv.z)))
     E.objattrs[('SubResult', 'done')] = done_attr
     E.objattrs[('SubResult', 'stdout')] = lambda eng, st, r: st.alloc(HList(('obj', 'OutLine'), rlines_arr(r.z), rlines_n(r.z)))
     E.objattrs[('SubResult', 'num_ran')] = lambda eng, st, r: VInt(rnum(r.z))
